@@ -21,6 +21,12 @@
 (*        ins  : tuple BOOLEAN  thread is inside _enter_z3/_exit_z3        *)
 (*        pos  : tuple Nat      operations of the script completed         *)
 (*        fin  : tuple BOOLEAN  thread has terminated                      *)
+(*        base : BOOLEAN   the value the APPLICATION last gave the flag    *)
+(*                         (initially gc0; changed by environment steps,   *)
+(*                         which happen only while the guard is idle) =    *)
+(*                         "what it was before the first call started" of  *)
+(*                         the next busy period                            *)
+(*        flips: Nat       number of environment steps so far              *)
 (*        bgc  : BOOLEAN   the collector was seen enabled from inside the  *)
 (*                         body of a condom'd call (sticky)                *)
 (*        crash: BOOLEAN   a thread died with an unexpected exception      *)
@@ -55,6 +61,8 @@ Fl(s, t) == IF s.fin[t] THEN 0 ELSE s.fl[t]
 InFlight(cfg, s) == Sum([t \in 1..N(cfg) |-> Fl(s, t)])
 Quiescent(cfg, s) == \A t \in 1..N(cfg) : ~s.ins[t]
 AllFin(cfg, s) == \A t \in 1..N(cfg) : s.fin[t]
+\* idle = between busy periods: nobody inside the guard, nothing in flight
+Idle(cfg, s) == Quiescent(cfg, s) /\ \A t \in 1..N(cfg) : Fl(s, t) = 0
 
 \* in-flight bookkeeping is a function of (script, pos, ins): a call of exit leaves "in flight" at the call
 ExpectFl(cfg, s, t) ==
@@ -68,8 +76,10 @@ CountNonNeg(cfg, s) == s.act >= 0
 GcOffWhileInFlight(cfg, s) == Prot(cfg) => (~s.bgc /\ ((\E t \in 1..N(cfg) : Fl(s, t) > 0) => ~s.gc))
 NoUnderflow(cfg, s) == Balanced(cfg) => s.ufl = 0
 CountMatches(cfg, s) == (Prot(cfg) /\ Quiescent(cfg, s)) => s.act = InFlight(cfg, s)
-\* "once all calls have returned the enabled state is what it was before the first of them started"
-Restored(cfg, s) == (Prot(cfg) /\ Quiescent(cfg, s) /\ InFlight(cfg, s) = 0) => s.gc = cfg.gc0
+\* "once all calls have returned the enabled state is what it was before the first of them started" - for EVERY
+\* busy period: whenever the guard is idle the flag is what the application last made it (s.base), so the value
+\* sampled at an idle->busy transition is s.base and it must be back at the busy->idle transition
+Restored(cfg, s) == (Prot(cfg) /\ Idle(cfg, s)) => s.gc = s.base
 UnderflowCount(cfg, s) == (Single(cfg) /\ AllFin(cfg, s) /\ ~s.crash) => s.ufl = Unmatched(cfg.scripts[1])
 FlOK(cfg, s) == ~s.crash => \A t \in 1..N(cfg) : s.fl[t] = ExpectFl(cfg, s, t)
 
@@ -87,16 +97,22 @@ Clauses(cfg, s) ==
        [] c = "dead" -> s.dead}
 
 AbsInit(cfg, s) ==
-  /\ s.gc = cfg.gc0 /\ s.act = 0 /\ s.ufl = 0 /\ ~s.crash /\ ~s.bgc
+  /\ s.gc = cfg.gc0 /\ s.base = cfg.gc0 /\ s.flips = 0 /\ s.act = 0 /\ s.ufl = 0 /\ ~s.crash /\ ~s.bgc
   /\ Len(s.fl) = N(cfg) /\ Len(s.ins) = N(cfg) /\ Len(s.pos) = N(cfg) /\ Len(s.fin) = N(cfg)
   /\ \A t \in 1..N(cfg) : s.fl[t] = 0 /\ ~s.ins[t] /\ s.pos[t] = 0 /\ ~s.fin[t]
 
-\* one observable step (or a stutter): a single thread moves, completes at most one operation, threads never
+\* one observable step (or a stutter): the environment moves, or a single thread moves, completes at most one operation, threads never
 \* resurrect, underflow reports are never retracted.  gc and act are unconstrained here - that is what the
 \* clauses above are for.
 AbsStep(cfg, s, u) ==
   \/ u = s
+  \/ \* environment: the application flips the flag while the guard is idle; nothing else changes
+     /\ u.flips = s.flips + 1 /\ Idle(cfg, s)
+     /\ u.gc = ~s.gc /\ u.base = u.gc
+     /\ u.act = s.act /\ u.ufl = s.ufl /\ u.fl = s.fl /\ u.ins = s.ins /\ u.pos = s.pos /\ u.fin = s.fin
+     /\ u.crash = s.crash /\ u.bgc = s.bgc
   \/ \E t \in 1..N(cfg) :
+       /\ u.flips = s.flips /\ u.base = s.base
        /\ ~s.fin[t]
        /\ \A o \in (1..N(cfg)) \ {t} : u.pos[o] = s.pos[o] /\ u.ins[o] = s.ins[o] /\ u.fin[o] = s.fin[o] /\ u.fl[o] = s.fl[o]
        /\ u.pos[t] \in {s.pos[t], s.pos[t] + 1}
